@@ -9,6 +9,9 @@ import CBV.Lemmas.C09Tree
 import CBV.Lemmas.C09Center
 import CBV.Lemmas.C09Copy
 import CBV.Lemmas.C09Arc
+import CBV.Lemmas.C09Entity
+import CBV.Lemmas.C09Seq
+import CBV.Lemmas.C09CopyOut
 
 namespace CBV.C09
 open CBV
@@ -214,34 +217,141 @@ theorem T_C09_compose (viaMethod : Bool) (t : Tr × Option V3) (ts : List (Tr ×
 theorem T_C09_center_equivariant (t : RT) (ps : List V3) (hne : ps ≠ []) : t.pt (avg ps) = avg (ps.map t.pt) :=
   RT.pt_avg t ps hne
 
-/-- hence the default origin of the next step is the image of the previous centre; spelled out for a face with
-    four distinct corner cells (any edge data): after any method call the centre of the face is the image of its
-    centre -/
-theorem T_C09_compose_face (t : RT) (a : Rat) (i0 i1 i2 i3 : Nat) (edges : List Ent) (h : Heap)
-    (hna : NoAlias (.node .face a (.pt i0 :: .pt i1 :: .pt i2 :: .pt i3 :: edges)))
-    (hin : InHeap (.node .face a (.pt i0 :: .pt i1 :: .pt i2 :: .pt i3 :: edges)) h) :
-    let e : Ent := .node .face a (.pt i0 :: .pt i1 :: .pt i2 :: .pt i3 :: edges)
-    center (applyE t e h).2 none (applyE t e h).1 = (center h none e).map t.pt := by
-  intro e
-  have ht := T_C09_tree t e h hna hin
-  have hv : ∀ i, i ∈ [i0, i1, i2, i3] → (i, false) ∈ visitsE e := by
-    intro i hi
-    simp only [e, visitsE, visitsL, List.mem_append, List.mem_cons, List.not_mem_nil, or_false, List.cons_append,
-      List.nil_append, Prod.mk.injEq, and_true] at hi ⊢
-    rcases hi with h | h | h | h <;> simp [h]
-  have g0 := ht.1 i0 (hv i0 (by simp))
-  have g1 := ht.1 i1 (hv i1 (by simp))
-  have g2 := ht.1 i2 (hv i2 (by simp))
-  have g3 := ht.1 i3 (hv i3 (by simp))
-  have hshape : ∃ es', (applyE t e h).1 = .node .face a (.pt i0 :: .pt i1 :: .pt i2 :: .pt i3 :: es') := by
-    simp only [e, applyE, applyL]
-    cases hm : t.isMirror <;> simp [touchAttr]
-  obtain ⟨es', hs⟩ := hshape
-  rw [hs]
-  simp only [center, faceCenter, facePts, children, List.take, List.filterMap, ptOf, Option.map, e]
-  rw [g0, g1, g2, g3]
-  rw [T_C09_center_equivariant t _ (by simp)]
-  simp
+/-! ### T_C09_output — the whole entity tree: transform, then read the output = read the output, then transform -/
+
+/-- **Every entity, every transformation.**  Calling `translate/rotate/scale/mirror` on an entity (recursion through
+    `parts`, in place, with the overrides of `AxisVector`, `Operation.mirror`, the cache of interpolated curves) and
+    then reading its output geometry gives the output geometry of the untouched entity transformed as a value
+    (`mapV`: every point by the affine map, every axis direction by its direction action, mirrored operations turned
+    inside out) — for every part tree without shared leaves. -/
+theorem T_C09_output (t : RT) (e : Ent) (h : Heap) (hna : NoAlias e) (hin : InHeap e h) :
+    resolveE (applyE t e h).2 (applyE t e h).1 = mapV t (resolveE h e) :=
+  resolve_applyE t e h hna hin
+
+/-- the same for one element of a transformation list (`ElementBase.transform`: the parts are transformed directly,
+    the entity's own override — `Operation.mirror`'s inversion — is bypassed) -/
+theorem T_C09_output_list (t : RT) (k : Kind) (a : Rat) (ch : List Ent) (h : Heap)
+    (hna : NoAlias (.node k a ch)) (hin : InHeap (.node k a ch) h) :
+    resolveE (applyL t ch h).2 (.node k (touchAttr k a) (applyL t ch h).1) =
+      .node k (touchAttr k a) (mapVL t (resolveL h ch)) := by
+  have h1 : visitsE (.node k a ch) = visitsL ch := by simp [visitsE]
+  simp only [resolveE]
+  rw [resolve_applyL t ch h (by simpa [NoAlias, h1] using hna) (by simpa [InHeap, h1] using hin)]
+
+example : NoAlias sampleFace ∧ InHeap sampleFace (List.replicate 8 V3.zero) := by
+  constructor
+  · unfold NoAlias; decide
+  · unfold InHeap; decide
+
+/-- the value-level transformation is what the statement of C09 says: points by the affine map, directions by the
+    direction action, nothing else but `Operation.mirror`'s inversion and the dropped caches -/
+theorem T_C09_output_leaves (t : RT) (v : V3) (vs : List V3) :
+    mapV t (.pt v) = .pt (t.pt v) ∧ mapV t (.dir v) = .dir (t.dir v) ∧ mapV t (.arr vs) = .arr (vs.map t.pt) := by
+  simp [mapV]
+
+/-- hence the default origin of the next step is the image of the previous centre, for **every** entity kind whose
+    `center` the model transcribes and that follows the entity schema (`wfV`, validated on every real tree):
+    face, operation, shape, sphere shape, stack, assembly, joint, discrete / line / circle curve, OnCurve / Spline edges,
+    Grid, disks, mapped sketches.  (EdgeData's constant centre (0,0,0) does not follow — the code warns.) -/
+theorem T_C09_center_entity (t : RT) (k : Kind) (a : Rat) (ch : List Ent) (h : Heap)
+    (hna : NoAlias (.node k a ch)) (hin : InHeap (.node k a ch) h) (hcov : (coveredKind k || coveredKind2 k) = true)
+    (hwf : wfV (resolveE h (.node k a ch)) = true) (c : V3) (hc : center h none (.node k a ch) = some c) :
+    center (applyE t (.node k a ch) h).2 none (applyE t (.node k a ch) h).1 = some (t.pt c) := by
+  unfold center at hc ⊢
+  rw [T_C09_output t _ h hna hin]
+  simp only [resolveE] at hc hwf ⊢
+  rcases Bool.or_eq_true _ _ |>.mp hcov with h1 | h2
+  · exact centerV_mapV_node t k a _ h1 hwf c hc
+  · exact centerV_mapV_node2 t k a _ h2 hwf c hc
+
+/-- the kinds covered: everything with a transcribed rule except EdgeData's constant (`edge`, `angle`) -/
+theorem T_C09_center_entity_kinds :
+    ∀ k : Kind, (coveredKind k || coveredKind2 k) = (ruleOf k != .observed && ruleOf k != .zero) := by
+  intro k; cases k <;> rfl
+
+/-- a two-block assembly-like sample: a shape of one operation (two faces of four points, four side edges) -/
+def sampleShape : Ent :=
+  .node .shape 0 [.node .op 0 [
+    .node .face 0 [.pt 0, .pt 1, .pt 2, .pt 3, .node .edge 0 [], .node .edge 0 [], .node .edge 0 [], .node .edge 0 []],
+    .node .face 0 [.pt 4, .pt 5, .pt 6, .pt 7, .node .edge 0 [.pt 8], .node .edge 0 [], .node .edge 0 [], .node .edge 0 []],
+    .node .angle (1 / 2) [.dir 9], .node .edge 0 [], .node .edge 0 [], .node .edge 0 []]]
+
+example : NoAlias sampleShape ∧ InHeap sampleShape (List.replicate 10 V3.zero) ∧
+    wfV (resolveE (List.replicate 10 V3.zero) sampleShape) = true ∧
+    (center (List.replicate 10 V3.zero) none sampleShape).isSome = true := by
+  refine ⟨?_, ?_, ?_, ?_⟩
+  · unfold NoAlias; decide
+  · unfold InHeap; decide
+  · decide
+  · simp [center, centerV, sampleShape, resolveE, resolveL, ruleOf, CRule.isCurveOf, CRule.eval]
+
+/-- point and array leaves: their centre (position / average of the rows) follows the map as well -/
+theorem T_C09_center_leaf (t : RT) (v : V3) (vs : List V3) (hne : vs ≠ []) :
+    centerV none (mapV t (.pt v)) = (centerV none (.pt v)).map t.pt ∧
+      centerV none (mapV t (.arr vs)) = (centerV none (.arr vs)).map t.pt := by
+  simp only [mapV, centerV, Option.map, true_and, Option.some.injEq]
+  exact (RT.pt_avg t vs hne).symm
+
+example : ([⟨1, 2, 3⟩] : List V3) ≠ [] := by simp
+
+/-! ### T_C09_sequence — chains of method calls and transformation lists on the whole tree -/
+
+/-- NoAlias and InHeap survive every method call: the cells of the tree are only permuted (`Operation.mirror`
+    swaps faces and reverses spline rows), so the next call is again covered by `T_C09_output` -/
+theorem T_C09_invariant (t : RT) (e : Ent) (h : Heap) (hna : NoAlias e) (hin : InHeap e h) :
+    NoAlias (applyE t e h).1 ∧ InHeap (applyE t e h).1 (applyE t e h).2 :=
+  inv_applyE t e h hna hin
+
+/-- **Functoriality.**  For every sequence of transformations (method chain or transformation list, any length, every
+    default origin resolved against the centre of the state the previous steps left behind): running it on the
+    entity in the heap and reading the output afterwards is running the value-level steps (`runStepsV`: `mapV` of each
+    resolved step, default origins from the centre *of the current output*) on the output read before.  Both sides
+    refuse together (a default origin is needed and the kind has no centre rule). -/
+theorem T_C09_sequence (viaMethod : Bool) (ts : List (Tr × Option V3)) (e : Ent) (h : Heap)
+    (hna : NoAlias e) (hin : InHeap e h) :
+    (runSteps viaMethod ts (e, h)).map (fun s => resolveE s.2 s.1) = runStepsV viaMethod ts (resolveE h e) :=
+  runSteps_resolve viaMethod ts e h hna hin
+
+/-- value-level composition: two translations add up, explicit-origin steps compose as maps on every leaf -/
+theorem T_C09_sequence_leaf (t1 t2 : RT) (v : V3) :
+    mapV t2 (mapV t1 (.pt v)) = .pt (t2.pt (t1.pt v)) ∧ mapV t2 (mapV t1 (.dir v)) = .dir (t2.dir (t1.dir v)) := by
+  simp [mapV]
+
+/-! ### T_C09_source — the model's entity schema, centre rules and default origins are those of the source -/
+
+/-- every class of `base` / `construct` that defines `parts` lists exactly the slots of the model's schema, in the
+    same order (regenerated from the source with `ast` on every run); the two classes without a part list are
+    `AnalyticCurve` (raises) and `ElementBase` (abstract) -/
+theorem T_C09_schema_source :
+    schema.map Row.render = Gen.c09Parts.filter (fun r => !(r.2 == ["!raise"] || r.2 == ["!abstract"])) ∧
+      Gen.c09Parts.filter (fun r => r.2 == ["!raise"] || r.2 == ["!abstract"]) =
+        [("AnalyticCurve", ["!raise"]), ("ElementBase", ["!abstract"])] := by
+  constructor <;> rfl
+
+/-- the only `parts` property with a side effect is `InterpolatedCurveBase.parts` (it invalidates the cached
+    function): exactly the kinds whose attribute `touchAttr` resets -/
+theorem T_C09_parts_effects :
+    Gen.c09PartsPre = ((schema.filter (fun r => r.kinds.any (fun k => touchAttr k 1 != 1))).map
+      (fun r => (r.cls, ["self.function.invalidate()"]))) := by
+  rfl
+
+/-- every `center` the model evaluates is the transcription of the expression the class returns; the classes it does
+    not transcribe (abstract, or the observed value is used) are listed -/
+theorem T_C09_center_source :
+    centerRows.map (fun r => (r.1, r.2.src)) = Gen.c09Center.filter (fun r => !observedCenters.contains r.1) ∧
+      (Gen.c09Center.filter (fun r => observedCenters.contains r.1)).map Prod.fst = observedCenters := by
+  constructor <;> rfl
+
+/-- default origins and the method called on every part: `ElementBase.rotate/scale` → `self.center`, `mirror` →
+    (0,0,0); `transform` → the centre taken before the loop over the parts (first statement of the loop), in the branch
+    order Translation, Rotation, Scaling, Mirror (then `Shear`, which C09 does not cover) -/
+theorem T_C09_defaults_source :
+    let ts : List Tr := [.translate V3.zero, .rotate 0 V3.zero none, .scale 1 none, .mirror V3.zero none]
+    ts.map (fun t => (t.names.1, (t.dflt.src true))) = Gen.c09MethodDefaults ∧
+      ts.map (fun t => (t.names.1, [t.names.1])) = Gen.c09Recursion ∧
+      ts.map (fun t => (t.names.2, t.dflt.src false, [t.names.1])) ++ [("Shear", "-", ["shear"])] = Gen.c09ListDefaults ∧
+      Gen.c09ListCenterFirst = "center = self.center" := by
+  refine ⟨?_, ?_, ?_, ?_⟩ <;> rfl
 
 /-- an operation keeps its centre under `mirror` although its faces are swapped -/
 theorem T_C09_center_swap (ps qs : List V3) : avg (ps ++ qs) = avg (qs ++ ps) := avg_append_comm ps qs
@@ -353,5 +463,49 @@ theorem T_C09_copy_independent_rev (t : RT) (e : Ent) (h : Heap) (hin : InHeap e
   obtain ⟨v, hv, hvi⟩ := List.mem_map.mp hmem
   have := hin v hv
   omega
+
+/-- the copy writes the same output geometry as the original (same skeleton, same values through every leaf) -/
+theorem T_C09_copy_output (e : Ent) (h : Heap) (hin : InHeap e h) :
+    resolveE (copy e h).2 (copy e h).1 = resolveE h e := by
+  obtain ⟨_, hvals, hskel, _⟩ := T_C09_copy e h hin
+  exact resolve_of_skel_vals h _ e _ hskel hvals
+
+/-- … and whatever is then done to the copy, the ORIGINAL still writes the output it wrote before; together with
+    `T_C09_output` for the copy (its cells are fresh, so it inherits NoAlias-free reasoning cell by cell): transforming
+    the copy = transforming the output of the original, the original untouched -/
+theorem T_C09_copy_output_independent (t : RT) (e : Ent) (h : Heap) (hin : InHeap e h) :
+    resolveE (applyE t (copy e h).1 (copy e h).2).2 e = resolveE h e := by
+  apply resolve_of_skel_vals h _ e e rfl
+  simp only [valsE]
+  apply List.map_congr_left
+  intro v hv
+  rw [T_C09_copy_independent t e h hin v.1 (hin v hv)]
+
+/-- the other direction: transforming the original leaves the output of the copy what it was -/
+theorem T_C09_copy_output_independent_rev (t : RT) (e : Ent) (h : Heap) (hin : InHeap e h) :
+    resolveE (applyE t e (copy e h).2).2 (copy e h).1 = resolveE h e := by
+  rw [← T_C09_copy_output e h hin]
+  apply resolve_of_skel_vals _ _ _ _ rfl
+  simp only [valsE]
+  apply List.map_congr_left
+  intro v hv
+  obtain ⟨_, _, _, hfresh⟩ := T_C09_copy e h hin
+  rw [T_C09_copy_independent_rev t e h hin v.1 (hfresh v hv).1]
+
+/-- NoAlias is preserved by `copy`: the cells of the copy of a tree without shared leaves are consecutive fresh numbers -/
+theorem T_C09_copy_noalias (e : Ent) (h : Heap) (hna : NoAlias e) : NoAlias (copy e h).1 :=
+  copy_noalias e h hna
+
+/-- **copy, then transform**: the transformed copy writes the transformed output of the original (and by
+    `T_C09_copy_output_independent` the original still writes its own) -/
+theorem T_C09_copy_transform (t : RT) (e : Ent) (h : Heap) (hna : NoAlias e) (hin : InHeap e h) :
+    resolveE (applyE t (copy e h).1 (copy e h).2).2 (applyE t (copy e h).1 (copy e h).2).1 = mapV t (resolveE h e) := by
+  obtain ⟨_, _, _, hfresh⟩ := T_C09_copy e h hin
+  rw [T_C09_output t _ _ (T_C09_copy_noalias e h hna) (fun v hv => (hfresh v hv).2), T_C09_copy_output e h hin]
+
+example : NoAlias sampleShape ∧ InHeap sampleShape (List.replicate 10 V3.zero) := by
+  constructor
+  · unfold NoAlias; decide
+  · unfold InHeap; decide
 
 end CBV.C09
